@@ -50,7 +50,7 @@ def dilute_specs():
         for solute in (('nacl', 'dmso', 'na2so4', 'tea', 'water') if th else ('nacl', 'dmso')):
             if solute not in names:
                 continue
-            for solvent in (('water', 'tea', 'dmso') if th else ('water', 'tea')):
+            for solvent in (('water', 'tea', 'dmso', 'na2so4') if th else ('water', 'tea', 'na2so4')):
                 if solvent == solute:
                     continue
                 for cu, f, cap in itertools.product(DIL_UNITS, FACTORS + ([F(1, 100), F(99, 100), F(5)] if th else []), CAPS):
@@ -58,6 +58,18 @@ def dilute_specs():
                         continue
                     yield {'op': 'dilute', 'mix': mix, 'solute': solute, 'solvent': solvent, 'cu': cu, 'f': [f.numerator, f.denominator],
                            'cap': cap}
+
+
+def self_specs():
+    """A 'solvent' that IS the solute, handed over as an equal but distinct object (a second Substance built the same way, or
+    the key of a container that went through a transfer): adding the solute cannot lower its concentration."""
+    for mix in MIXTURES:
+        names = [n for n, _ in MIXTURES[mix]]
+        for solute in ('nacl', 'dmso', 'water'):
+            if solute in names and len(names) > 1:
+                for cu, f in itertools.product(('M', 'g/g', 'mol/mol', 'L/L', '%w/v'), (F(1, 2), F(9, 10), F(2))):
+                    yield {'op': 'dilute', 'mix': mix, 'solute': solute, 'solvent': '=copy', 'cu': cu, 'f': [f.numerator, f.denominator],
+                           'cap': 'inf'}
 
 
 def fill_specs():
@@ -93,7 +105,7 @@ def only_solvent_increased(before, after, solvent):
 
 def run_spec(sp):
     vs, cls = run_spec_direct(sp)
-    if vs or cls[0].startswith('skip') or sp['cap'] not in ('inf', 'just-short'):
+    if vs or cls[0].startswith('skip') or cls[0] == 'self' or sp['cap'] not in ('inf', 'just-short'):
         return vs, cls
     return via_recipe(sp, cls)
 
@@ -140,12 +152,51 @@ def via_recipe(sp, cls):
     return [], cls + ('recipe-' + outcome,)
 
 
+def self_dilution(pp, vidx, sp, subs, contents, probe, f):
+    import copy
+    solute = subs[sp['solute']]
+    twin = copy.deepcopy(solute)
+    mult, num, den = ref.parse_concentration('1 ' + sp['cu'])
+    cur = ref.conc(pp, probe.contents, solute, num, den)
+    if not cur:
+        return [], ('skip',)
+    cstr = C05.conc_str(cur * f, sp['cu'])
+    target, _, _ = ref.parse_concentration(cstr)
+    if float(target) < 1e3 * 10.0 ** -pp.config.internal_precision:
+        return [], ('skip',)
+    case = {'vidx': vidx, 'spec': sp}
+    c = pp.Container('C', 'inf L', contents)
+    call = f"Container({sp['mix']}).dilute({sp['solute']}, {cstr!r}, <an equal copy of {sp['solute']}>)"
+    feat = f"dilute,mix={sp['mix']},solvent-is-solute"
+    env.clear_caches(pp)
+    _G['last'] = (c, (solute, cstr, twin), None)
+    try:
+        r = c.dilute(solute, cstr, twin)
+    except ValueError:
+        return [], ('self', 'ValueError')
+    except Exception as e:  # noqa
+        return [V(f"Container.dilute | wrong-exception | {feat}", f"{call} raised {type(e).__name__}: {e}", case)], \
+            ('self', type(e).__name__)
+    if f > 1:
+        return [V(f"Container.dilute | accepted-infeasible | {feat},above-current=1",
+                  f"{call} must be refused (target above the current concentration) but returned", case)], ('self', 'returned')
+    got = ref.conc(pp, r.contents, solute, num, den)
+    rel = 1e-6 + 10.0 ** -pp.config.internal_precision / float(target)
+    if got is None or abs(float(got) - float(target)) > rel * float(target):
+        return [V(f"Container.dilute | constraint-missed | {feat}",
+                  f"{call}: resulting concentration {float(got / mult) if got is not None else None!r} {sp['cu']}, requested "
+                  f"{float(target / mult)!r} (was {float(cur / mult)!r})", case)], ('self', 'returned')
+    return [], ('self', 'returned')
+
+
 def run_spec_direct(sp):
     pp, vidx = _G['pp'], _G['vidx']
     subs = e1.substances(pp, vidx)
     contents = [(subs[n], q) for n, q in MIXTURES[sp['mix']]]
     probe = pp.Container('C', 'inf L', contents)
     f = F(*sp['f'])
+    if sp['solvent'] == '=copy':
+        return self_dilution(pp, vidx, sp, subs, contents, probe, f)
     solvent = subs[sp['solvent']]
     rsv = ref.rsub(solvent)
     V0 = ref.measure(pp, probe.contents, 'L')
@@ -363,7 +414,7 @@ def run(col):
         MIXTURES.update(more_mixtures())
     for v in vals:
         _G.update(pp=pp, vidx=v)
-        sps = list(dilute_specs()) + list(fill_specs())
+        sps = list(dilute_specs()) + list(fill_specs()) + list(self_specs())
         res = par.pmap(run_spec, sps)
         classes = set()
         for sp, (vs, oc) in zip(sps, res):
